@@ -285,35 +285,33 @@ Lemma kids_ordered_locs locs syms :
   kids_ordered false (map loc_node locs ++ map sym_node syms) = true.
 Proof. induction locs; cbn; auto using kids_ordered_syms. Qed.
 
-Lemma loc_conforms_plain l :
-  l_orig l = l_file l ->
+Lemma loc_conforms l :
   (mem_str (node_name (loc_node l)) (rng_error_children rng_schema_gen) && kid_conforms rng_schema_gen (loc_node l)) = true.
 Proof.
-  intros E. unfold loc_node, loc_attrs. rewrite E.
-  assert (str_eqb (l_file l) (l_file l) = true) as -> by (apply str_eqb_eq; reflexivity).
-  destruct (nonempty (l_info l)); vm_compute; reflexivity.
+  unfold loc_node, loc_attrs.
+  destruct (negb (str_eqb (l_orig l) (l_file l))), (nonempty (l_info l)); vm_compute; reflexivity.
 Qed.
 
 Lemma sym_conforms s :
   (mem_str (node_name (sym_node s)) (rng_error_children rng_schema_gen) && kid_conforms rng_schema_gen (sym_node s)) = true.
 Proof. unfold sym_node. destruct (is_nil (cstr s)); vm_compute; reflexivity. Qed.
 
-Theorem xml_conforms_rng_plain m :
-  rng_plain m -> error_conforms rng_schema_gen (error_tree m) = true.
+Theorem xml_conforms_rng m :
+  reportable m -> error_conforms rng_schema_gen (error_tree m) = true.
 Proof.
-  intros (Hg & Hc & Hr & Hl & Hs).
+  intros (Hs1 & Hs2).
   unfold error_tree, error_conforms.
   assert (Hk : forallb (fun k => mem_str (node_name k) (rng_error_children rng_schema_gen) && kid_conforms rng_schema_gen k)
                  (map loc_node (rev (m_stack m)) ++ map sym_node (symbols_of (m_symbols m))) = true).
   { rewrite forallb_app. apply andb_true_intro; split.
-    - apply forallb_forall. intros x Hx. apply in_map_iff in Hx. destruct Hx as (l & <- & Hin).
-      apply loc_conforms_plain. rewrite Forall_forall in Hl. apply Hl. apply in_rev; auto.
+    - apply forallb_forall. intros x Hx. apply in_map_iff in Hx. destruct Hx as (l & <- & Hin). apply loc_conforms.
     - apply forallb_forall. intros x Hx. apply in_map_iff in Hx. destruct Hx as (s & <- & _). apply sym_conforms. }
   rewrite Hk, kids_ordered_locs, !andb_true_r.
-  unfold error_attrs. rewrite Hg, Hc, Hr. cbn [nonempty is_nil negb when].
-  destruct (m_cwe m =? 0), (m_hash m =? 0), (m_inconclusive m), (nonempty (m_file0 m));
+  unfold error_attrs.
+  destruct (nonempty (m_guideline m)), (nonempty (m_classification m)), (m_cwe m =? 0), (m_hash m =? 0),
+           (m_inconclusive m), (nonempty (m_file0 m)), (nonempty (m_remark m));
     cbn [negb when present flat_map snd fst app];
-    cbn in Hs; destruct Hs as [<-|[<-|[<-|[<-|[<-|[<-|[]]]]]]]; vm_compute; reflexivity.
+    destruct (m_sev m); try congruence; vm_compute; reflexivity.
 Qed.
 
 (* ---------- StdLogger dedup ---------- *)
